@@ -440,7 +440,7 @@ package main
 //@   hooks hasher
 //@   requires p != nil && p.ImportPath != ""
 //@   assigns sumBuffer, b64NameBuffer, ghost wr
-//@   ensures @hashed-directory: r0 == old(hashWithPackage(p, p.ImportPath))
+//@   ensures @hashed-directory: p.ToObfuscate ==> r0 == old(hashWithPackage(p, p.ImportPath))
 //@   ensures @plain-package-keeps-its-directory: [C14] !p.ToObfuscate ==> r0 == p.ImportPath
 //@ end
 
